@@ -33,7 +33,7 @@ ASSUMPTIONS = [
     'datatypes are FloatRange (integral bounds/values, no value within the relative tolerance of a limit) and EnumType; '
     'nested datatypes, Limit parameters, `$` units, Commands and the order of accessibles are covered by the direct '
     'oracle on the implementation only, not by the Coq model',
-    'class bodies whose definition raises (ProgrammingError) are outside the generated domain',
+    'class bodies whose definition raises are outside the domain: a generated program ends before the first such definition (it happens when a bare-value override copies an inherited datatype that datatype property overrides made inconsistent)',
     'instances are modelled by value (their Parameter and datatype objects are private copies); that no object is '
     'shared between an instance and anything else is checked on the implementation (identity traversal) in every case',
 ]
